@@ -436,6 +436,9 @@ package ipfix
 //@ pred allEmpty(m MemCache) = forall j :: m.off <= j && j < m.off + len(m) ==> m.arr[j] != nil && len(m.arr[j].Templates) == 0
 //@ func GetCache
 //@   names cacheFile _ mem err b m i
+//@   opt lasterr ReadFile
+//@   exitassert [loaded] ReadFile_err == nil && Unmarshal_err == nil && mem.ShardNo == 32 && wellFormed(mem.Cache) ==> sameview(result, mem.Cache)   // a readable file holding a well-formed cache is loaded, not replaced by an empty cache (C11: what was saved is there after the restart)
+//@   names cacheFile _ mem err b m i
 //@   exitassert [loadedOrEmpty] sameview(result, mem.Cache) || allEmpty(result)
 //@   exitassert [decodedOnly] Unmarshal_err != nil ==> allEmpty(result)   // a document the JSON decoder rejected (it may have filled the target half-way) is never used: only templates that were in the saved cache
 //@   opt nolock the cache being loaded or built is not shared before GetCache returns
@@ -449,7 +452,7 @@ package ipfix
 //@ func (MemCache).valid
 //@   names m _ _ shard
 //@   opt nolock called from GetCache on a cache that is not shared yet
-//@   ensures result ==> wellFormed(m)
+//@   ensures result <==> wellFormed(m)   // accepts exactly the caches with 32 shards that are all present and have a map
 //@   loop 1 @ range m #254612b5
 //@     invariant len(m) == 32 && (forall j :: m.off <= j && j < m.off + range_i ==> m.arr[j] != nil && !m.arr[j].Templates.isnil)
 
